@@ -150,6 +150,31 @@ pub fn run(tier: Tier) -> i32 {
         }
     }
 
+    // ---- a literal count fixes the plural form with the rules of the locale being rendered, regional variants
+    // included (pt: one for 0 and 1; pt-PT: one for 1 only), cardinal and ordinal, as default and as second locale
+    for locs in [vec!["pt-PT"], vec!["pt"], vec!["en", "pt-PT", "pt"], vec!["pt", "pt-PT", "en-GB", "fr-CA"]] {
+        let mut p = Project::new(Config::simple(locs[0], &locs));
+        for l in &locs {
+            let mut e = vec![
+                ("p_one".to_string(), s(vec![text(&format!("[{l}.p.one]")), var("count")])),
+                ("p_other".to_string(), s(vec![text(&format!("[{l}.p.other]")), var("count")])),
+                ("o_ordinal_one".to_string(), s(vec![text(&format!("[{l}.o.one]")), var("count")])),
+                ("o_ordinal_two".to_string(), s(vec![text(&format!("[{l}.o.two]")), var("count")])),
+                ("o_ordinal_few".to_string(), s(vec![text(&format!("[{l}.o.few]")), var("count")])),
+                ("o_ordinal_other".to_string(), s(vec![text(&format!("[{l}.o.other]")), var("count")])),
+            ];
+            for n in 0u64..=4 {
+                e.push((format!("pc{n}"), s(vec![text("<"), fk_args("p", vec![("count", FkArg::UInt(n))]), text(">")])));
+                e.push((format!("oc{n}"), s(vec![fk_args("o", vec![("count", FkArg::UInt(n))])])));
+            }
+            for (i, f) in ["0.5", "1.0", "1.5"].iter().enumerate() {
+                e.push((format!("pf{i}"), s(vec![fk_args("p", vec![("count", FkArg::Float(f.to_string()))])])));
+            }
+            p.set_file(None, l, e);
+        }
+        jobs.push(("literal-count-regional", p));
+    }
+
     // ---- namespaces: referencing key and target in the same / another namespace ------------------------
     for rt in tuples(REFS.len(), 2) {
         let refs: Vec<Refk> = rt.iter().map(|i| REFS[*i]).collect();
@@ -212,7 +237,7 @@ pub fn run(tier: Tier) -> i32 {
         }
     }
     let mut cov = serde_json::Map::new();
-    cov.insert("rule".into(), json!(format!("chains k0 -> .. -> leaf of depth <= {max_depth}: every tuple over 15 referencing forms (whole value, mid text, inside component, string/number/bool/renaming/nested-$t argument, literal count 1 and 0, renamed count, unknown argument, inside range branch, inside plural form, two references) x 7 target kinds (text, interpolation, component, range, plural, number, plain `{{{{count}}}}` variable) x every assignment of key names (all permutations for depth<=2); special targets (subkey path, subkey group, missing, self, path through a value); all digraphs on <=3 nodes where each node is text, $t(j) or $t(j,{{x:$t(k)}}) (cycles included); 4-locale projects (plain, explicit-null target, inheriting locale with null target) for depth <= {loc_depth}; two-namespace layouts for depth 2; each accepted project: every key in every locale rendered under boundary counts against the substitution model; each rejected project: Err whose message names a key")));
+    cov.insert("rule".into(), json!(format!("chains k0 -> .. -> leaf of depth <= {max_depth}: every tuple over 18 referencing forms (whole range branch / plural form, literal float count, whole value, mid text, inside component, string/number/bool/renaming/nested-$t argument, literal count 1 and 0, renamed count, unknown argument, inside range branch, inside plural form, two references) x 10 target kinds (text, interpolation, component, range, plural, number, plain `{{{{count}}}}` variable, the empty string, a float range, formatted variables) x every assignment of key names (all permutations for depth<=2); special targets (subkey path, subkey group, missing, self, path through a value); all digraphs on <=3 nodes where each node is text, $t(j) or $t(j,{{x:$t(k)}}) (cycles included); 4-locale projects (plain, explicit-null target, inheriting locale with null target) for depth <= {loc_depth}; two-namespace layouts for depth 2; literal counts 0..=4 and 0.5 / 1.0 / 1.5 on cardinal and ordinal plurals in pt / pt-PT / en-GB / fr-CA projects (regional rules); every inherits map x target presence x referencing-key state over 4 locales; each accepted project: every key in every locale rendered under boundary counts against the substitution model; each rejected project: Err whose message names a key")));
     cov.insert("exhaustive".into(), json!(true));
     cov.insert("outcome_classes".into(), json!(*classes.lock().unwrap()));
     cov.insert("key_locale_comparisons".into(), json!(*keys_total.lock().unwrap()));
